@@ -93,6 +93,9 @@ func World(prop string, r *rng.R, n int) Result {
 		fs := otherEntryPoints(r.Fork(), ctx, wr.w.S.App.OrbiterKeeper.Adapter(), 220)
 		res.Failures = append(res.Failures, fs...)
 		res.Notes["other_entry_points_driven"] = 220
+		fs2, driven := recvPassThrough(r.Fork(), ctx, wr.w.S.App.OrbiterKeeper.Adapter(), sim.OrbiterAddr().String(), 400)
+		res.Failures = append(res.Failures, fs2...)
+		res.Notes["non_ics20_packets_driven_through_the_bare_middleware"] = driven
 	}
 	if prop == "C19" && os.Getenv("VERIF_C19_CHILD") == "" && os.Getenv("VERIF_DRIVE_OUT") != "" {
 		res.Notes["second_process"] = secondProcess(&res)
@@ -309,7 +312,11 @@ func (wr *worldRunner) runCase(prop string, p profile, r *rng.R, stats map[strin
 					info.shape += "/mutated-memo"
 				}
 			}
-			if !pin && !swept && pkt.ICS != nil && r.Chance(p.pOddWire) {
+			oddShare := p.pOddWire
+			if prop == "C07" && info.orbiter {
+				oddShare = 45 // what the ICS-20 decoder refuses is not the orbiter's, whoever the receiver reads as
+			}
+			if !pin && !swept && pkt.ICS != nil && r.Chance(oddShare) {
 				saved := pkt
 				if kind := oddWire(r, &pkt); pkt.WireAgrees() {
 					info.shape += "/" + kind
@@ -666,7 +673,7 @@ var sigProp = map[string]string{
 	"nonpositive-out": "C02", "ledger-delta": "C02", "supply-delta": "C02", "other-denom-touched": "C02",
 	"mismatched-route-accepted": "C05", "bridge-request": "C05", "replace-request": "C05",
 	"unauthorized-accepted": "C10", "unauthorized-changed-state": "C10", "refused-msg-changed-state": "C10", "authority-refused": "C10",
-	"paused-destination-forwarded": "C08", "unpaused-destination-refused": "C08", "pause-sets": "C08", "pause-query": "C08",
+	"valid-pause-refused": "C08", "valid-action-pause-refused": "C09", "paused-destination-forwarded": "C08", "unpaused-destination-refused": "C08", "pause-sets": "C08", "pause-query": "C08",
 	"paused-action-executed": "C09", "unpaused-action-refused": "C09", "action-set": "C09", "action-query": "C09",
 	"stats-fold": "C12", "stats-changed-by-non-transfer": "C12",
 	"passthrough-over-limit-accepted": "C18", "passthrough-within-limit-refused": "C18", "limit-not-in-force": "C18", "passthrough-checked-late": "C18",
@@ -818,6 +825,13 @@ func (o *oracle) check0(op world.Op, info pktInfo, obs world.OpObs) []Failure {
 			fs = append(fs, o.fail("refused-msg-changed-state", "a refused message changed state", desc))
 		}
 		if op.Msg.Signer == sim.Authority && !obs.MsgOK && o.mustSucceed(op.Msg) {
+			switch op.Msg.Kind {
+			case "PauseProtocol", "UnpauseProtocol", "PauseCrossChains", "UnpauseCrossChains":
+				// C08: a destination that cannot be paused although the message is valid for the current sets
+				fs = append(fs, o.fail("valid-pause-refused", "a pause / unpause message of the authority that is valid for the current sets ("+op.Msg.ID+" "+fmt.Sprint(op.Msg.IDs)+") was refused: "+obs.MsgErr, desc))
+			case "PauseAction", "UnpauseAction":
+				fs = append(fs, o.fail("valid-action-pause-refused", "a pause / unpause of an action by the authority that is valid for the current set was refused: "+obs.MsgErr, desc))
+			}
 			fs = append(fs, o.fail("authority-refused", "a valid message signed by the authority was refused: "+obs.MsgErr, desc))
 		}
 		if op.Msg.Kind == "ReplaceDepositForBurn" && op.Msg.Signer == sim.Authority {
@@ -1624,7 +1638,12 @@ func oddWire(r *rng.R, p *world.Packet) string {
 		}
 		return []byte("{" + sep + strings.Join(parts, ","+sep) + sep + "}")
 	}
-	switch r.Intn(8) {
+	kind := r.Intn(8)
+	if kind >= 4 && kind <= 6 && r.Chance(50) {
+		// data the ICS-20 decoder refuses is not the orbiter's whatever its memo says: any memo
+		fields[4][1] = q(rng.Pick(r, []string{"", "hello", `{"forward":{"receiver":"x"}}`, `{"orbiter":{}}`, `{"orbiter":null}`}))
+	}
+	switch kind {
 	case 0:
 		fields[3][1] = esc(ics.Receiver)
 		p.Raw = render("")
